@@ -56,11 +56,17 @@ Definition writer_ok (tbl : list ninfo) (D0 : fp) (obs : list (node * list node)
    members denote pairwise disjoint bits, i.e. the net drives no bit twice ---- *)
 Fixpoint pairwise_disjoint (l : fp) : bool :=
   match l with [] => true | a :: r => forallb (fun b => negb (ivl_overlap a b)) r && pairwise_disjoint r end.
+(* two readers that denote exactly the same bits (x and its full-width slice x[0:n]) receive the same writer bits: they
+   count once; readers with different, overlapping ranges would receive different writer bits on a shared bit *)
+Definition ivl_eqb (a b : ivl) : bool := Nat.eqb (iroot a) (iroot b) && (ilo a =? ilo b)%Z && (ihi a =? ihi b)%Z.
+Fixpoint dedup_ivl (l : fp) : fp :=
+  match l with [] => [] | a :: r => if existsb (ivl_eqb a) r then dedup_ivl r else a :: dedup_ivl r end.
+Definition net_readers (tbl : list ninfo) (wn : node * list node) : fp := dedup_ivl (reader_ivls tbl wn).
 Definition net_shape_ok (tbl : list ninfo) (wn : node * list node) : bool :=
-  pairwise_disjoint (reader_ivls tbl wn) &&
+  pairwise_disjoint (net_readers tbl wn) &&
   (const_n tbl (fst wn) ||
    forallb (fun r => negb (ivl_overlap (ivl_n tbl (fst wn)) r) &&
-                     (ihi r - ilo r <=? ihi (ivl_n tbl (fst wn)) - ilo (ivl_n tbl (fst wn)))%Z) (reader_ivls tbl wn)).
+                     (ihi r - ilo r <=? ihi (ivl_n tbl (fst wn)) - ilo (ivl_n tbl (fst wn)))%Z) (net_readers tbl wn)).
 Definition net_disjoint_ok (tbl : list ninfo) (obs : list (node * list node)) : bool := forallb (net_shape_ok tbl) obs.
 
 (* ---- the least-fixed-point reading of "legitimately driven" ---- *)
